@@ -3,11 +3,11 @@ EXTENDS Memory
 (* scale 1 (1 unit = 1 page): limits far below 4 GiB plus the default limit *)
 Mins1 == {0, 1, 2}
 Maxs1 == {-1, 0, 1, 2, 3, 65536, 65537}
-Limits1 == {1, 2, 3, 65536}
+Limits1 == {0, 1, 2, 3, 65536}
 (* scale 16384 (4 units = 4 GiB) *)
 Mins4 == {0, 1, 3, 4}
 Maxs4 == {-1, 1, 3, 4, 5}
-Limits4 == {1, 3, 4}
+Limits4 == {0, 1, 3, 4}
 
 Bases == {"zero", "last", "size", "top"}
 GrowOps == [op : {"ggrow", "hgrow", "xgrow"}, d : {0, 1, 2, -1, -2, -3}]
